@@ -13,7 +13,7 @@ FAMS = [
                    "cancel_kinds": ["scope", "deadline"], **OPTS},
                   [oracles.LimitObserver], []),
     PoolMixFamily("C04", "limit-threads", 800, 15000,
-                  {"exec": "threads", "max_callers": 4, **OPTS},
+                  {"exec": "threads", "max_callers": 4, "protos": ["h1"], **OPTS},
                   [oracles.LimitObserver], []),
 ]
 
